@@ -670,6 +670,10 @@ pub async fn h3_hold(
         let t = conn.timeout().unwrap_or(Duration::from_millis(10)).min(Duration::from_millis(10));
         let _ = tokio::time::timeout(t, socket.readable()).await;
     }
+    if !conn.is_closed() && !conn.is_draining() {
+        let _ = conn.close(true, 0, b"");
+        flush(&socket, &mut conn).await;
+    }
     if std::env::var("VERIF_DEBUG").is_ok() {
         eprintln!(
             "h3_hold end: closed={} draining={} timed_out={} peer_error={:?} local_error={:?} stats={:?}",
